@@ -273,6 +273,29 @@ theorem translated_balanced_chain_sound_caller (oracle : Nat → Bool) (fuel lf 
     0 ≤ splitIdx n ∧ splitIdx n < stepsMalloc n :=
   SqiProofs.BalCaller.balanced_caller_sound oracle fuel lf n hn hf hlf
 
+open SqiProofs.SkelRecSim SqiModel.SkelRec SqiGen.BalCaller in
+/-- **`n - 1` is the least sufficient allocation of `out->steps`** (every n ≥ 4): the indices written by the translated
+    recursion (started as the caller's text says) together with the caller's trailing loop are EXACTLY {0, …, n-2};
+    hence an allocation of `a` elements contains them all iff `stepsMalloc n ≤ a`. -/
+theorem balanced_steps_alloc_tight (oracle : Nat → Bool) (fuel lf n : Nat) (hn : 4 ≤ n) (hf : balancedCap n ≤ fuel)
+    (hlf : n - 3 ≤ lf) :
+    let k := SqiGen.ChainSkel.theta_chain_comput_rec obs [] oracle fuel (n + 1) (recLen n) (recIndex n) (recAdvance n)
+        (recStacklen n) (recTotal n) 0 0 0 0
+        (SqiGen.ChainSkel.RecSt.init
+          (OSt.entry (stack1Size n (logLoop lf (lenInit n) logInit)).toNat n (n + 1 - (kernelDbl1 n).toNat) [n + 1]))
+    (∀ j : Int, (j ∈ k.obs.steps.map (fun s => s.1) ∨ ∃ i, tailLo n ≤ i ∧ i < tailHi n ∧ j ∈ tailStepIdx n i) ↔
+      (0 ≤ j ∧ j < stepsMalloc n)) ∧
+    (∀ a : Int, (∀ j, (j ∈ k.obs.steps.map (fun s => s.1) ∨ ∃ i, tailLo n ≤ i ∧ i < tailHi n ∧ j ∈ tailStepIdx n i) → j < a) ↔
+      stepsMalloc n ≤ a) :=
+  ⟨SqiProofs.BalCaller.steps_written_exact oracle fuel lf n hn hf hlf,
+   SqiProofs.BalCaller.steps_alloc_tight oracle fuel lf n hn hf hlf⟩
+
+open SqiGen.BalCaller in
+/-- negation with witness: with one element fewer (`n - 2`) the last iteration of the trailing loop writes outside -/
+theorem balanced_steps_alloc_short_fails (n : Nat) (hn : 4 ≤ n) :
+    ∃ i, tailLo n ≤ i ∧ i < tailHi n ∧ ∃ j ∈ tailStepIdx n i, ¬ j < stepsMalloc n - 1 :=
+  SqiProofs.BalCaller.steps_alloc_short_fails n hn
+
 /-- non-vacuity: n = 4 … 259 with the fuel the caller would use -/
 example : (List.range 256).all (fun k =>
     SqiGen.BalCaller.stack1Size (k + 4) (SqiGen.BalCaller.logLoop (k + 1) (SqiGen.BalCaller.lenInit (k + 4)) SqiGen.BalCaller.logInit)
